@@ -652,7 +652,12 @@ func (ex *Exec) evalCall(x ECall, st *State, env *Env) TV {
 		}
 		panic(unsupported("spec: len of unsupported value"))
 	case "cap":
-		return TV{Sc{arg(0).V.(SliceV).Cap}, tInt}
+		v := arg(0)
+		if sv, ok := v.V.(SliceV); ok {
+			return TV{Sc{sv.Cap}, tInt}
+		}
+		ex.vc.DeclareFun("chancap", []Sort{SInt}, SInt)
+		return TV{Sc{app(SInt, "chancap", ex.scalarOf(v.V))}, tInt}
 	case "ptr":
 		return TV{Sc{arg(0).V.(SliceV).Ptr}, tInt}
 	case "off":
